@@ -1021,3 +1021,55 @@ func errorFoundNilOn(p *Path, c *ssa.Call) bool {
 	}
 	return false
 }
+
+// checkStopToleratesClosed: StopRecording of the file recorder on a recorder with no open file does nothing and returns
+// nil - the processor relies on it (the bad-frame path stops the continuous recorder whether or not a file is open,
+// Reset stops the motion recorder unconditionally). Every use of the writer in StopRecording is on a path that found
+// the writer non-nil.
+func checkStopToleratesClosed(w *World, r *Report, rule string) {
+	T := w.NamedType("cmd/thermal-recorder", "CPTVFileRecorder")
+	if T == nil {
+		r.Unknown(rule, "CPTVFileRecorder", "-", "type not found")
+		return
+	}
+	st := T.Underlying().(*types.Struct)
+	wfield := -1
+	for i := 0; i < st.NumFields(); i++ {
+		if typeIs(st.Field(i).Type(), "github.com/TheCacophonyProject/go-cptv", "FileWriter") {
+			wfield = i
+		}
+	}
+	stop := findMethod(w.Prog, T, "StopRecording")
+	if wfield < 0 || stop == nil {
+		r.Unknown(rule, "CPTVFileRecorder.StopRecording", "-", "writer field / method not found")
+		return
+	}
+	leaf := "main.CPTVFileRecorder." + st.Field(wfield).Name() + "@recv:main.CPTVFileRecorder"
+	e := newTermEnv(w)
+	paths, complete := enumPathsInl(e, stop, 256, sameReceiverHelperOf(stop))
+	nClosed := 0
+	ok := complete && len(paths) > 0
+	detail := ""
+	for _, p := range paths {
+		if hasGuard(p.Conds, "ne("+leaf+", nil)") {
+			continue
+		}
+		nClosed++
+		for _, in := range p.Instrs {
+			c, isCall := in.(*ssa.Call)
+			if !isCall {
+				continue
+			}
+			cn := calleeName(c)
+			if strings.HasPrefix(cn, "cptv.FileWriter.") || strings.HasPrefix(cn, "cptv.Writer.") || cn == "os.Rename" {
+				ok = false
+				detail = cn + " reached without the writer having been found non-nil (" + w.InstrPos(c) + ")"
+			}
+		}
+		if p.Term(e, p.Ret.Results[0]).String() != "nil" && detail == "" {
+			ok = false
+			detail = "a stop with no file open returns an error"
+		}
+	}
+	r.Check(ok && nClosed >= 1, rule, "the file recorder's StopRecording with no file open does nothing and returns nil (the writer is used only where it was found non-nil)", w.Pos(stop.Pos()), fmt.Sprintf("%d paths, %d without an open file; %s", len(paths), nClosed, detail))
+}
